@@ -32,6 +32,8 @@ for d in sorted(glob.glob(os.path.join(VERIF, "seeded", "*"))):
                 outcome.append(f"{p} ({tier}): {kind}" + (f" - `{sig}`" if sig else ""))
             else:
                 outcome.append(f"{p} ({tier}): not reported")
+    if v.get("superseded"):
+        outcome = ["superseded: " + v["superseded"]]
     title = (m.get("title") or "").replace("|", "/")
     rows.append(f"| {name} | {title[:110]} | {'yes' if v.get('confirmed') else 'NO'} | " + "; ".join(outcome) + " |")
 table = "<!-- seedtable -->\n| Seed | Change | Confirmed (tests pass, demo) | Outcome of the check(s) with the change applied |\n|---|---|---|---|\n" + "\n".join(rows) + "\n<!-- /seedtable -->"
